@@ -191,7 +191,10 @@ def judge(c, pre, post, pre2, post2, ctx, case, trig=False):
     try:
         root = md.scan(data)
     except Exception as e:  # noqa: BLE001
+        # no result at all for a text that contains the indicator: it is not reported (C01 sees the same event as a raise)
         ctx.count("scan_raised(C01):" + type(e).__name__)
+        ctx.violation(f"ioc:{c['kind']}:scan-raised:{type(e).__name__}", f"{c['kind']} {c['ind'][:80]!r} between neutral text: the scan raised "
+                                                                         f"{type(e).__name__}: {str(e)[:120]} - nothing is reported", case)
         return
     ctx.count("judged")
     ctx.count("kind:" + c["kind"])
